@@ -257,3 +257,35 @@ def windows_int(x, lo, hi, n):
         out.append(And(x >= a, x <= b))
         a = b + 1
     return out
+
+
+# ---------------------------------------------------------------- Span limits (documented)
+LIM = {
+    "years": 19998, "months": 239976, "weeks": 1043497, "days": 7304484, "hours": 175307616,
+    "minutes": 10518456960, "seconds": 631107417600, "milliseconds": 631107417600000,
+    "microseconds": 631107417600000000, "nanoseconds": 9223372036854775807,
+}
+DAY_NS = 86400 * NS
+HOUR_NS = 3600 * NS
+MIN_NS = 60 * NS
+
+
+def sgn(neg):
+    return If(neg, -1, 1)
+
+
+def ref_add_months(y, m, d, dy, dm):
+    """add years+months with day clamped to the target month length -> (y', m', d')"""
+    total = y * 12 + (m - 1) + dy * 12 + dm
+    y2 = total / 12
+    m2 = total % 12 + 1
+    dim = ref_dim(y2, m2)
+    d2 = If(d > dim, dim, d)
+    return y2, m2, d2
+
+
+def opt_is(o, cond, pred):
+    """Option value: Some iff cond, and when Some its payload satisfies pred(payload Out)"""
+    if not o.has_variant("Some"):
+        return Not(cond)
+    return If(cond, And(o.is_some, pred(o.some)), o.is_none)
